@@ -213,6 +213,280 @@ theorem digest_accepted (H : Alg → Bytes → Bytes) (hH : ∀ a x, (H a x).all
               simp [hq, hs, huh, response, issuedOf, hnc1]
 
 
+/-- **alg_table_spec**: the model's `hashFuncs` table is RFC 7616's registry — for every name. -/
+theorem alg_table_spec (name : Bytes) (hne : name ≠ []) :
+    specAlg name = (algOf name).map (fun a => (a, isSess name)) := by
+  unfold specAlg
+  repeat' split
+  all_goals first
+    | (rename_i h; have e := eq_of_beq h; subst e; rfl)
+    | skip
+  rename_i h1 h2 h3 h4 h5 h6
+  have h0 : (name == ([] : Bytes)) = false := by
+    cases name with
+    | nil => exact absurd rfl hne
+    | cons _ _ => rfl
+  simp only [algOf, hashTable, lookup, h0, h1, h2, h3, h4, h5, h6, Bool.false_eq_true, if_false, Option.map_none]
+
+theorem alg_table_default : algOf [] = some Alg.md5 ∧ specAlg (effAlg none) = some (Alg.md5, false) := by
+  decide
+
+/-- A challenge the client can answer: registered algorithm, no qop or a qop list offering
+`auth`, and not the unanswerable combination "-sess without qop". -/
+def Supported (c : Challenge) : Prop :=
+  (algOf c.algorithm).isSome = true ∧ validateQop c.qop = true ∧
+  ¬(isSess c.algorithm = true ∧ c.qop = [])
+
+/-- **bad_challenge_errors**: an unsupported challenge (unknown algorithm, qop without `auth`,
+`-sess` without qop) yields an ERROR — for every hash, account, method, URI and entropy — never a
+header. -/
+theorem bad_challenge_errors (H : Alg → Bytes → Bytes) (c : Challenge) (cr : Cred) (rnd : Option Bytes)
+    (h : ¬Supported c) : ∃ e, authorize H algOf c cr rnd = .error e := by
+  unfold authorize
+  split
+  · exact ⟨_, rfl⟩
+  · rename_i alg halg
+    split
+    · exact ⟨_, rfl⟩
+    · rename_i hv
+      split
+      · exact ⟨_, rfl⟩
+      · rename_i hs
+        exfalso
+        apply h
+        refine ⟨by simp [halg], by simpa using hv, ?_⟩
+        rintro ⟨h1, h2⟩
+        exact hs (by simp [h1, h2])
+
+/-- … and which error: the kinds are distinguished. -/
+theorem bad_challenge_kinds (H : Alg → Bytes → Bytes) (c : Challenge) (cr : Cred) (rnd : Option Bytes) :
+    (algOf c.algorithm = none → authorize H algOf c cr rnd = .error .algNotSupported) ∧
+    ((algOf c.algorithm).isSome = true → validateQop c.qop = false →
+      authorize H algOf c cr rnd = .error .qopNotSupported) ∧
+    ((algOf c.algorithm).isSome = true → isSess c.algorithm = true → c.qop = [] →
+      authorize H algOf c cr rnd = .error .qopNotSupported) := by
+  refine ⟨?_, ?_, ?_⟩
+  · intro h; simp [authorize, h]
+  · intro h1 h2
+    cases ha : algOf c.algorithm with
+    | none => simp [ha] at h1
+    | some a => simp [authorize, ha, h2]
+  · intro h1 h2 h3
+    cases ha : algOf c.algorithm with
+    | none => simp [ha] at h1
+    | some a =>
+      cases hv : validateQop c.qop <;> simp [authorize, ha, h2, h3]
+
+/-- Conversely a supported challenge IS answered whenever entropy is available (the previous
+theorems are not vacuous, and `digest_accepted` is not about an empty set). -/
+theorem supported_answered (H : Alg → Bytes → Bytes) (c : Challenge) (cr : Cred) (r : Bytes)
+    (h : Supported c) : ∃ hdr, authorize H algOf c cr (some r) = .ok hdr := by
+  obtain ⟨h1, h2, h3⟩ := h
+  cases ha : algOf c.algorithm with
+  | none => simp [ha] at h1
+  | some a =>
+    have hs : (isSess c.algorithm && c.qop.isEmpty) = false := by
+      cases hq : isSess c.algorithm with
+      | false => rfl
+      | true =>
+        cases hc : c.qop with
+        | nil => exact absurd ⟨hq, hc⟩ h3
+        | cons _ _ => rfl
+    refine ⟨digestPrefix ++ commaJoin (fields (H a) c cr (hex8 (cr.nc + 1)) ((hex r).take 32)), ?_⟩
+    simp [authorize, ha, h2, hs]
+
+/-- The entropy source failing is an error as well. -/
+theorem no_entropy_errors (H : Alg → Bytes → Bytes) (c : Challenge) (cr : Cred) :
+    ∃ e, authorize H algOf c cr none = .error e := by
+  unfold authorize
+  split
+  · exact ⟨_, rfl⟩
+  · split
+    · exact ⟨_, rfl⟩
+    · split
+      · exact ⟨_, rfl⟩
+      · exact ⟨_, rfl⟩
+
+/-! ### the middleware -/
+
+/-- **non401_untouched**: any response that is not a 401 (or carries a transport error) is
+left exactly as it is: no challenge is parsed, nothing is sent. -/
+theorem non401_untouched (H : Alg → Bytes → Bytes) (user pass method uri : Bytes) (body : Body)
+    (rnd : Option Bytes) (resp : Resp) (h : resp.err = true ∨ resp.status ≠ 401) :
+    handle H algOf user pass method uri body rnd resp = .untouched := by
+  unfold handle
+  rcases h with h | h
+  · simp [h]
+  · simp [h]
+
+theorem non401_one_request (H : Alg → Bytes → Bytes) (server : Wire → Resp) (user pass method uri : Bytes)
+    (body : Body) (rnd : Option Bytes)
+    (h : (server { method, uri, authorization := none, body := bodyBytes body }).status ≠ 401) :
+    exchange H algOf server user pass method uri body rnd =
+      ([{ method, uri, authorization := none, body := bodyBytes body }], .untouched) := by
+  simp only [exchange, non401_untouched H user pass method uri body rnd _ (Or.inr h)]
+
+/-- A malformed challenge (whatever `parseChallenge` rejects, including an absent header) is an
+error, not a request. -/
+theorem malformed_challenge_errors (H : Alg → Bytes → Bytes) (user pass method uri : Bytes) (body : Body)
+    (rnd : Option Bytes) (resp : Resp) (e : Err) (h401 : resp.err = false ∧ resp.status = 401)
+    (h : resp.wwwAuth = [] ∨ parseChallenge resp.wwwAuth = .error e) :
+    ∃ e', handle H algOf user pass method uri body rnd resp = .failed e' := by
+  unfold handle
+  simp only [h401.1, h401.2, bne_self_eq_false, Bool.or_self, Bool.false_eq_true, if_false]
+  rcases h with h | h
+  · exact ⟨.badChallenge, by simp [h]⟩
+  · split
+    · exact ⟨_, rfl⟩
+    · simp only [h]; exact ⟨_, rfl⟩
+
+/-- **answered_once**: whatever the origin answers (any function `server`), a call puts at most
+two requests on the wire; the second exists exactly when the middleware decided to re-send, it
+is the first request plus the Authorization header — same method, same request target — and
+the response to it is not examined again. -/
+theorem answered_once (H : Alg → Bytes → Bytes) (server : Wire → Resp) (user pass method uri : Bytes)
+    (body : Body) (rnd : Option Bytes) :
+    let x := exchange H algOf server user pass method uri body rnd
+    let first : Wire := { method, uri, authorization := none, body := bodyBytes body }
+    (x.1 = [first] ∧ ∀ hdr b, x.2 ≠ .resend hdr b) ∨
+    (∃ hdr b, x.2 = .resend hdr b ∧
+      x.1 = [first, { method, uri, authorization := some hdr, body := b }]) := by
+  simp only [exchange]
+  cases ho : handle H algOf user pass method uri body rnd
+      (server { method, uri, authorization := none, body := bodyBytes body }) with
+  | untouched => left; exact ⟨rfl, by intro _ _ h; cases h⟩
+  | failed e => left; exact ⟨rfl, by intro _ _ h; cases h⟩
+  | resend hdr b => right; exact ⟨hdr, b, rfl, rfl⟩
+
+theorem at_most_two_requests (H : Alg → Bytes → Bytes) (server : Wire → Resp) (user pass method uri : Bytes)
+    (body : Body) (rnd : Option Bytes) :
+    (exchange H algOf server user pass method uri body rnd).1.length ≤ 2 := by
+  rcases answered_once H server user pass method uri body rnd with ⟨h, _⟩ | ⟨_, _, _, h⟩ <;>
+    rw [h] <;> simp
+
+/-- **body_resent_intact**: when the request is sent again its body is the original body —
+byte for byte, and a request without body stays without — and the Authorization value is the
+one `authorize` computed for the parsed challenge. A body that cannot be produced again
+(io.Reader) is never re-sent. -/
+theorem body_resent_intact (H : Alg → Bytes → Bytes) (user pass method uri : Bytes) (body : Body)
+    (rnd : Option Bytes) (resp : Resp) (hdr : Bytes) (b : Option Bytes)
+    (h : handle H algOf user pass method uri body rnd resp = .resend hdr b) :
+    b = bodyBytes body ∧ (∀ s, body ≠ .stream s) ∧ resp.status = 401 ∧ resp.err = false ∧
+    ∃ c, parseChallenge resp.wwwAuth = .ok c ∧
+      authorize H algOf c { user, pass, method, uri } rnd = .ok hdr := by
+  unfold handle at h
+  split at h
+  · cases h
+  · rename_i h401
+    have h401' : resp.err = false ∧ resp.status = 401 := by
+      simp only [Bool.or_eq_true, bne_iff_ne, ne_eq, not_or, Bool.not_eq_true, Decidable.not_not] at h401
+      exact h401
+    split at h
+    · cases h
+    · split at h
+      · cases h
+      · rename_i c hc
+        split at h
+        · cases h
+        · rename_i hdr' ha
+          cases body with
+          | none =>
+            simp only [Outcome.resend.injEq] at h
+            exact ⟨h.2.symm, (by intro s e; cases e), h401'.2, h401'.1, c, hc, h.1 ▸ ha⟩
+          | replayable bb =>
+            simp only [Outcome.resend.injEq] at h
+            exact ⟨h.2.symm, (by intro s e; cases e), h401'.2, h401'.1, c, hc, h.1 ▸ ha⟩
+          | stream _ => cases h
+          | setupFails => cases h
+
+
+/-! ### non-vacuity and the excluded points -/
+
+deriving instance DecidableEq for Except
+
+/-- a concrete hash for the examples: hex of the pre-image -/
+def exH : Alg → Bytes → Bytes := fun _ x => hex x
+
+theorem exH_qd : ∀ a x, (exH a x).all isQd = true := fun _ x => hex_all_qd x
+
+/-- `Digest realm="r", nonce="n", qop="auth", algorithm=SHA-256-sess, opaque="o", userhash=true` -/
+def exRaw : Bytes :=
+  b!"Digest realm=\"r\", nonce=\"n\", qop=\"auth\", algorithm=SHA-256-sess, opaque=\"o\", userhash=true"
+
+def exChal : Challenge :=
+  { realm := b!"r", nonce := b!"n", qop := b!"auth", algorithm := b!"SHA-256-sess", opaq := b!"o",
+    userhash := b!"true" }
+
+def exCred : Cred :=
+  { user := b!"Mufasa", pass := b!"Circle of Life", method := b!"GET", uri := b!"/dir/index.html?a=b" }
+
+def exRnd : Bytes := [0, 1, 2, 3, 4, 5, 6, 7, 8, 9, 10, 11, 12, 13, 14, 15]
+
+example : parseChallenge exRaw = .ok exChal := by decide
+
+theorem exSupported : Supported exChal := by
+  refine ⟨by decide, by decide, ?_⟩
+  rintro ⟨_, h⟩; cases h
+
+/-- the hypotheses of `digest_accepted` are satisfiable (and its conclusion then holds) -/
+example : ∃ hdr, authorize exH algOf exChal exCred (some exRnd) = .ok hdr ∧
+    verify exH specAlg
+      { issued := issuedOf exChal, method := exCred.method, uri := exCred.uri, user := exCred.user,
+        pass := exCred.pass } hdr = true := by
+  obtain ⟨hdr, h⟩ := supported_answered exH exChal exCred exRnd exSupported
+  exact ⟨hdr, h, digest_accepted exH exH_qd exRaw exChal _ _ _ _ [] _ hdr (by decide)
+    ⟨Or.inl rfl, by decide, by decide, by decide, by decide⟩ h⟩
+
+/-! ### the excluded points of `digest_accepted`, each a concrete failing input -/
+
+/-- What the client sends for a raw challenge (`none` = it answers with an error). -/
+def answer (raw user pass method uri : Bytes) : Option Bytes :=
+  match parseChallenge raw with
+  | .error _ => none
+  | .ok c =>
+    match authorize exH algOf c { user, pass, method, uri } (some exRnd) with
+    | .ok hdr => some hdr
+    | .error _ => none
+
+def rejected (sc : Issued) (raw user pass method uri : Bytes) : Bool :=
+  match answer raw user pass method uri with
+  | some hdr => !verify exH specAlg { issued := sc, method, uri, user, pass } hdr
+  | none => false
+
+set_option maxRecDepth 100000 in
+/-- `Expressible.user`: a user name with a quote (`a"b`) is written unescaped: the header
+`username="a"b"` is not a credential. -/
+theorem excluded_user_quote :
+    rejected { realm := b!"r", nonce := b!"n" } b!"Digest realm=\"r\", nonce=\"n\", algorithm=MD5"
+      b!"a\"b" b!"pw" b!"GET" b!"/" = true := by decide
+
+set_option maxRecDepth 100000 in
+/-- a comma inside a quoted realm followed by a known key: `realm="x, opaque=y"` is read as
+realm `x` plus opaque `y` — a header for another realm, not an error. -/
+theorem excluded_quoted_comma :
+    rejected { realm := b!"x, opaque=y", nonce := b!"n" } b!"Digest realm=\"x, opaque=y\", nonce=\"n\", algorithm=MD5"
+      b!"u" b!"pw" b!"GET" b!"/" = true := by decide
+
+set_option maxRecDepth 100000 in
+/-- bad white space after `=` (legal, RFC 7235 BWS): `realm= "x"` is read as realm ` "x`. -/
+theorem excluded_bws :
+    rejected { realm := b!"x", nonce := b!"n" } b!"Digest realm= \"x\", nonce=\"n\", algorithm=MD5"
+      b!"u" b!"pw" b!"GET" b!"/" = true := by decide
+
+set_option maxRecDepth 100000 in
+/-- a quoted-pair in the realm (`a\"b` stands for `a"b`) is hashed with its backslash. -/
+theorem excluded_quoted_pair :
+    rejected { realm := b!"a\"b", nonce := b!"n" } b!"Digest realm=\"a\\\"b\", nonce=\"n\", algorithm=MD5"
+      b!"u" b!"pw" b!"GET" b!"/" = true := by decide
+
+/-- Strictness that is NOT a violation: the usual comma cases are an error, not a header —
+a qop list, a realm with a plain comma. -/
+theorem comma_usually_errors :
+    answer b!"Digest realm=\"r\", nonce=\"n\", qop=\"auth,auth-int\"" b!"u" b!"pw" b!"GET" b!"/" = none ∧
+    answer b!"Digest realm=\"r\", nonce=\"n\", qop=\"auth, auth-int\"" b!"u" b!"pw" b!"GET" b!"/" = none ∧
+    answer b!"Digest realm=\"Acme, Inc\", nonce=\"n\"" b!"u" b!"pw" b!"GET" b!"/" = none := by decide
+
+
 end digest
 
 end Req.Props.C20
